@@ -71,7 +71,9 @@ fn get_block_stack_table_removal_multiplicand<E: FieldElement<BaseField = Felt>>
         let parent_fmp = main_trace.fmp(i + 1);
         let parent_stack_depth = main_trace.stack_depth(i + 1);
         let parent_next_overflow_addr = main_trace.parent_overflow_address(i + 1);
-        let parent_fn_hash = main_trace.fn_hash(i);
+        // the hash of the function which executed the CALL or SYSCALL is restored in the row
+        // following the END operation
+        let parent_fn_hash = main_trace.fn_hash(i + 1);
 
         [
             ONE,
@@ -127,7 +129,9 @@ fn get_block_stack_table_inclusion_multiplicand<E: FieldElement<BaseField = Felt
         let parent_fmp = main_trace.fmp(i);
         let parent_stack_depth = main_trace.stack_depth(i);
         let parent_next_overflow_addr = main_trace.parent_overflow_address(i);
-        let parent_fn_hash = main_trace.decoder_hasher_state_first_half(i);
+        // the hash of the function which executes the CALL or SYSCALL (the callee's hash becomes
+        // visible in the system columns only in the next row, and never for a SYSCALL)
+        let parent_fn_hash = main_trace.fn_hash(i);
         [
             ONE,
             block_id,
